@@ -79,6 +79,7 @@ pub fn write_patches(w: &mut BitWriter, patches: &[PatchModel], num_extra: usize
             }
         }
     }
+    crate::hostile::perturb(&mut ops);
     let code = EntropyCode::generate(src, 10, &[&ops], &CodeOpts::default());
     code.write_header(w, src);
     code.write_stream(w, &ops, true);
